@@ -289,7 +289,27 @@ def run(tier, only=None):
                                "therefore 'never a false report on any schedule or thread count'",
                                "Observer::len == number of held messages (that is C12's obligation)",
                                "ProtoModel::build is a script that adds the sub-models of the tree; model init/handlers are coroutines (opaque)"]
-    rc = SP.run(PROP, tier, ev, "props.C06", jobs, native_replay=_native)
+    rc = SP.run(PROP, tier, ev, "props.C06", jobs, native_replay=_native) if jobs else C.EXIT_OK
+    if not only or only == "handoff":
+        # part H (E3): the idle/park hand-off of the in-flight message count on the multi-threaded executor
+        from props import C06h
+        from vlib import drvprop as DP
+        work = C.WorkDir("mirse-C06")
+        try:
+            mir, src_root, _ = DP.dump_mir(work)
+            if not mir:
+                rc = max(rc, C.EXIT_INCONCLUSIVE)
+            else:
+                ev.cov["engines"].append("axc11 (axiomatic C11 release/acquire model over MIRSE events)")
+                rh = C06h.run_part(ev, work, mir, src_root, tier)
+                rc = C.EXIT_VIOLATION if C.EXIT_VIOLATION in (rc, rh) else max(rc, rh)
+        finally:
+            work.close()
+        ev.cov["bounds"]["handoff"] = ("E3: 2 (thorough: 3) workers, each from the top of run_local_worker's loop to its first park with a symbolic "
+                                       "thread-local count (sum 0), injector empty, <= 1 (thorough: 2) CAS retries; Executor::run with <= 2 idle checks; "
+                                       "the activation at the start of run() precedes the deactivation attempts")
+        ev.cov["outside_claim"][0] = ("THREAD_MSG_COUNT +-1 inside the send/recv coroutines; workers that are re-activated or find tasks during the hand-off; "
+                                      "more than 3 workers")
     ev.write({0: "held on everything explored", 1: "violation", 2: "inconclusive"}[rc])
     return rc
 
@@ -298,6 +318,13 @@ def replay(path):
     ce = json.load(open(os.path.join(path, "counterexample.json")))
     work = C.WorkDir("mirse-C06")
     try:
+        if ce.get("obligation", "").endswith("idle-handoff"):
+            from props import C06h
+            ok = C06h.stress_replay(work, path)
+            if ok:
+                C.log(f"VIOLATION property={PROP} replay={path}")
+                return C.EXIT_VIOLATION
+            return C.EXIT_OK if ok is False else C.EXIT_INCONCLUSIVE
         ok = _native(work, dict(params=ce["params"], scenario=ce.get("scenario")), dict(witness=ce["witness"], vals=ce["values"], label=ce["obligation"], detail=ce["detail"]), path)
         if ok:
             C.log(f"VIOLATION property={PROP} replay={path}")
